@@ -251,6 +251,29 @@ def run_print(chk, bindir, tier):
     return recs + precs
 
 
+def falsify(rng, c, o):
+    """a recorded run with one observation falsified (anti-vacuity of the judge)"""
+    o = json.loads(json.dumps(o))
+    how = rng.randrange(5)
+    is_w = c["op"].startswith("write")
+    if o["err"] != 0 and not is_w:
+        how = 4     # after an error the statement leaves the buffer open (any prefix): only the error itself can be falsified
+    if how == 0 and o["buf"]:
+        o["buf"] = o["buf"][:-1]                       # a byte lost
+    elif how == 1 and o["buf"]:
+        k = rng.randrange(len(o["buf"]))
+        o["buf"] = o["buf"][:k] + [o["buf"][k]] + o["buf"][k:]   # a byte duplicated
+    elif how == 2 and len(o["buf"]) >= 2 and o["buf"][-1] != o["buf"][-2]:
+        o["buf"][-1], o["buf"][-2] = o["buf"][-2], o["buf"][-1]  # order
+    elif how == 3 and c["op"] in ("read_to_end", "read_to_string") and o["err"] == 0:
+        o["rn"] += 1                                    # count
+    else:
+        o["err"] = 5 if o["err"] == 0 else 0            # error swallowed / invented
+        if is_w and o["calls"] and o["calls"][-1][1] == "err" and o["err"] == 0:
+            pass
+    return o
+
+
 # ------------------------------------------------------------------------------------------
 def classify(c, o, models):
     if o["panic"]:
@@ -350,6 +373,24 @@ def run(tier):
                         c["op"], len(c["init"]), c["cap0"], c["n"], script_str(c["script"]), o["err"], o["rn"], len(o["buf"]),
                         " PANIC " + o["panic"] if o["panic"] else ""),
                     {"case": c, "observed": o})
+    # anti-vacuity: falsified copies of accepted runs must all be rejected by the judge
+    badset = set(allbad)
+    pool = [i for i in range(len(allcases)) if i not in badset and not allouts[i]["panic"]
+            and not (allcases[i]["op"] == "read_exact" and allouts[i]["err"] != 0)]
+    pick = [rng.choice(pool) for _ in range(80)] if pool else []
+    fc = [allcases[i] for i in pick]
+    fo = [falsify(rng, allcases[i], allouts[i]) for i in pick]
+    keep = [k for k in range(len(pick)) if fo[k] != allouts[pick[k]]]
+    fc, fo = [fc[k] for k in keep], [fo[k] for k in keep]
+    if fc:
+        t_before = chk.traces
+        fbad, _ = judge(chk, fc, fo, "falsified", batch=len(fc), workers=2, par=1)
+        chk.traces = t_before
+        if len(fbad) != len(fc):
+            acc = [k for k in range(len(fc)) if k not in set(fbad)][:3]
+            raise core.ToolError("judge self-test: %d of %d falsified runs were accepted, e.g. %s" % (
+                len(fc) - len(fbad), len(fc), [(fc[k]["op"], script_str(fc[k]["script"]), fo[k]["err"], fo[k]["rn"], len(fo[k]["buf"])) for k in acc]))
+    chk.extra["falsified_runs_rejected"] = len(fc)
     # 5. the print macros' own writer loop (unix/print.rs)
     precs = run_print(chk, bindir, tier)
     # accounting
